@@ -520,6 +520,12 @@ def gen_extras(start, want_types, specials):
                         it = "core::iter::empty::<&glam::%s>()" % t if byref else "core::iter::empty::<glam::%s>()" % t
                     add("<%s as %s<%s>>::%s over %d items" % (t, tr, arg or "Self", m, k), t, m, [g] * k, [g],
                         "%s    let r: glam::%s = %s.%s();\n    vec![V::into_val(r)]" % (lets, t, it, m), names)
+                # ... and long ones: a, b, a, b, ... of length ITER_LENS[k] (around powers of two up to 2^16: blocked /
+                # pairwise / unrolled summation has its boundaries there)
+                ctor = "(0..n).map(|i| &items[i % 2])" if byref else "(0..n).map(|i| items[i % 2])"
+                add("<%s as %s<%s>>::%s over ITER_LENS[k] items" % (t, tr, arg or "Self", m), t, m + "_n", [g, g, "Ty::S(Elem::Usize)"], [g],
+                    "    let items: [glam::%s; 2] = [V::from_val(&a[0]), V::from_val(&a[1])];\n    let k: usize = V::from_val(&a[2]);\n"
+                    "    let n = ITER_LENS[k %% ITER_LENS.len()];\n    let r: glam::%s = %s.%s();\n    vec![V::into_val(r)]" % (t, t, ctor, m), ["a", "b", "len_index"])
         # provided trait methods that an impl may override behind the back of the required one
         if has("PartialEq"):
             add("<%s as PartialEq>::ne (a != b)" % t, t, "ne", [g, g], ["Ty::S(Elem::Bool)"],
@@ -540,6 +546,10 @@ def gen_extras(start, want_types, specials):
                 "    let r = s.map(|e| { seen.borrow_mut().push(e); e * 2.0 + 1.0 });\n    vec![V::into_val(r), V::into_val(seen.into_inner())]" % (t, elem), ["self"])
     return out_fns, rows, i
 
+
+# iterator lengths for Sum / Product; ascending, the first ITER_LENS_SMALL entries are cheap enough for the interpreter
+ITER_LENS = [2, 3, 4, 7, 8, 9, 15, 16, 17, 31, 32, 33, 63, 64, 65, 127, 128, 129, 255, 256, 257, 511, 512, 513, 1023, 1024, 1025,
+             4095, 4096, 4097, 16383, 16384, 16385, 32767, 32768, 32769, 65535, 65536, 65537, 100003]
 
 INT_TYPES = [t for t, (e, n, k) in VEC.items() if k == "vec" and e not in ("f32", "f64")]
 
@@ -620,7 +630,7 @@ def main():
         fns.append(f)
         rows.append(r)
     xf, xr, total = gen_extras(len(ops), want, specials)
-    src = ["pub const N_FMT_SPECS: usize = %d;" % len(FMT_SPECS), "// @generated by /verif/apigen.py from rustdoc JSON of the glam working tree. Do not edit.",
+    src = ["pub const N_FMT_SPECS: usize = %d;" % len(FMT_SPECS), "pub const ITER_LENS: &[usize] = &%s;" % json.dumps(ITER_LENS), "// @generated by /verif/apigen.py from rustdoc JSON of the glam working tree. Do not edit.",
            "#[allow(unused_mut, unused_variables, clippy::all)]", "mod generated_fns {", "use super::*;"]
     src += [f.replace("fn op_", "pub fn op_", 1) for f in fns + xf]
     src += ["}", "use generated_fns::*;", "pub static OPS: &[OpDesc] = &["] + rows + xr + ["];"]
